@@ -130,7 +130,7 @@ func execRead(out *core.Out, id string, st *Stream, exp []Ev, ex rdExec, r *gen.
 	}
 
 	if ex.Mode == 3 {
-		const term = "\n\x00"
+		term := []string{"\n\x00", "", "", "x"}[r.Intn(4)] // the empty terminator is legal
 		jr := ws.JoinMessages(c, term)
 		var got bytes.Buffer
 		buf := make([]byte, r.Range(1, 3000))
